@@ -24,6 +24,31 @@ def tag(task_slug, params, inputs):
     return {'t': task_slug, 'p': params, 'i': inputs}
 
 
+def norm_input(v):
+    """What a consumer sees of an upstream value: directory results by the content of their out.json, lazily
+    generated ones as lists."""
+    if hasattr(v, 'joinpath') or hasattr(v, 'parts'):
+        import taskchain.data as _D
+        with (v / 'out.json').open() as f:
+            return _D.json.load(f)
+    if callable(v):
+        return list(v())
+    return v
+
+
+def visible(data, raw):
+    """Reference: the value of a task as its consumers (and the caller, after normalisation) see it."""
+    if data == 'gen':
+        return [{'k': k, 'v': raw} for k in range(3)]
+    if data == 'gen0':
+        return []
+    if data == 'list':
+        return [raw]
+    if data == 'str':
+        return repr(raw)
+    return raw
+
+
 def make_pipeline(spec, module='ref.family_gen'):
     """Returns {class name: class}. Classes are created in dependency order (by-class references need the class)."""
     from taskchain import Task, Parameter, InMemoryData, DirData
@@ -67,17 +92,15 @@ def make_pipeline(spec, module='ref.family_gen'):
             meta['name'] = t['meta_name']
         data = t.get('data', 'json')
         pnames = [p['name'] for p in t.get('params', [])]
-        ret = {'json': dict, 'mem': typing.Any, 'dir': DirData, 'cont': ContinuesData, 'gen': typing.Generator,
+        ret = {'json': dict, 'mem': dict, 'dir': DirData, 'cont': ContinuesData, 'gen': typing.Generator, 'gen0': typing.Generator,
                'lazy': GeneratedDataLazy, 'list': list, 'str': str, 'int': int}[data]
         if data == 'mem':
             meta['data_class'] = InMemoryData
-            meta['data_type'] = typing.Any
         body = _make_run(name, pnames, data, t.get('access', 'registry'))
-        ns = {'_tag': tag, '_RUNLOG': RUNLOG, '_FAIL': FAIL, '_ret': ret}
+        ns = {'_tag': tag, '_RUNLOG': RUNLOG, '_FAIL': FAIL, '_ret': ret, '_norm_input': norm_input}
         exec(body, ns)
         run = ns['run']
-        if data != 'mem':
-            run.__annotations__['return'] = ret
+        run.__annotations__['return'] = ret
         Meta = type('Meta', (), meta)
         cls = type(name, (Task,), {'Meta': Meta, 'run': run, '__module__': module, '_spec': t})
         classes[name] = cls
@@ -91,11 +114,12 @@ def _make_run(name, pnames, data, access):
     src = f'''
 def run({args}):
     _RUNLOG.append((self.fullname, id(self)))
+    self.save_to_run_info({{'nth_run_of_task': sum(1 for _r in _RUNLOG if _r[0] == self.fullname)}})
     params = {getp}
     inputs = {{}}
     for _n, _t in self.input_tasks.items():
         _k = _n.split('::')[-1]
-        inputs[_k] = _t.value if hasattr(_t, 'value') and hasattr(_t, 'fullname') else _t
+        inputs[_k] = _norm_input(_t.value) if hasattr(_t, 'value') and hasattr(_t, 'fullname') else _t
     f = _FAIL.get(self.slugname)
     if f is not None:
         f(self)
@@ -123,6 +147,11 @@ def run({args}):
                 '            f3 = _FAIL.get(self.slugname + "/item")\n'
                 '            if f3 is not None: f3(self, k)\n'
                 '            yield {"k": k, "v": value}\n'
+                '    return g()\n')
+    elif data == 'gen0':
+        src += ('    def g():\n'
+                '        return\n'
+                '        yield value\n'
                 '    return g()\n')
     else:
         raise ValueError(data)
